@@ -7,6 +7,8 @@ import z3
 from .sym import (SBuf, Blob, SInt, SBool, mk_int, mk_bool, int_term, _add, _sub, _t, _fold,
                   Unsupported, is_sym)
 
+SPLIT_CAP = 16
+
 class PyIndexError(Exception):
     pass
 
@@ -25,7 +27,8 @@ def octet_value(ctx, c):
     """python-level value of an octet chunk"""
     if isinstance(c, int):
         return c
-    return SInt(c, 0xFF)
+    from . import bitfield
+    return bitfield.wrap(c, 0xFF)
 
 def blob_octet(ctx, blob, k):
     t = z3.Select(blob.arr, _t(_add(blob.off, k)))
@@ -220,7 +223,17 @@ def expand(ctx, buf):
             if not isinstance(n, int):
                 n = _fold(n)
             if not isinstance(n, int):
-                raise Unsupported("iteration over a buffer of symbolic length needs a loop invariant")
+                # case split on the length: complete when the path condition bounds it
+                for k in range(0, SPLIT_CAP + 1):
+                    if ctx.decide(n == k):
+                        n = k
+                        break
+                else:
+                    import z3 as _z3
+                    if ctx._check() == _z3.unsat:
+                        from .sym import Infeasible
+                        raise Infeasible()
+                    raise Unsupported("iteration over a buffer whose length is not bounded by %d needs a loop invariant" % SPLIT_CAP)
             for j in range(n):
                 out.append(mk_int(blob_octet(ctx, c, j), 0xFF))
         else:
